@@ -1,4 +1,5 @@
 import Gql.Proofs.Location
+import Gql.Proofs.LocationLines
 /-!
 # C10 — Every reported source location is the true line and column
 
@@ -28,6 +29,15 @@ theorem excerpt_no_crash (body : List Nat) (p colOffset : Nat) (loc : Nat × Nat
     (h : getLocation body p = .ok loc) : (excerptLine body colOffset loc.1).isOk :=
   Gql.Text.excerpt_no_crash body p colOffset loc h
 
+/-- C10-5b. The excerpted line is the line the location names: `print_source_location` shows
+the `line`-th stretch of text between consecutive line terminators of the specification
+(`Spec.lines`: LF, CR LF, CR and nothing else), for every source text and every line number. -/
+theorem excerpt_is_named_line (body : List Nat) (line : Nat) (h : 1 ≤ line) :
+    excerptLine body 0 line = Out.index (Spec.lines body) (line - 1) := by
+  unfold excerptLine
+  simp only [List.replicate_zero, List.nil_append]
+  rw [if_neg (by omega), splitNL_eq_lines]
+
 /-- C10-4. With a configured `location_offset (l, c)` the rendered line is `line + l − 1` and
 the rendered column is `column + (c − 1)` on the first line only. -/
 theorem rendered_offset (l c line col : Nat) (hl : 1 ≤ l) (hc : 1 ≤ c) :
@@ -46,6 +56,8 @@ theorem lineCol_pos (body : List Nat) (p : Nat) : 1 ≤ (lineCol body p).1 ∧ 1
 example : (6 : Nat) ≤ [97, 13, 10, 98, 12, 10, 99].length ∧ ¬ insideCRLF [97, 13, 10, 98, 12, 10, 99] 6 ∧
     getLocation [97, 13, 10, 98, 12, 10, 99] 6 = .ok (3, 1) ∧ lineCol [97, 13, 10, 98, 12, 10, 99] 6 = (3, 1) := by
   decide
+
+example : Spec.lines [97, 13, 10, 98, 12, 10, 99] = [[97], [98, 12], [99]] := by decide
 
 -- The excluded offsets exist and are exactly the CR|LF interiors.
 example : insideCRLF [97, 13, 10] 2 ∧ ¬ insideCRLF [97, 13, 10] 1 ∧ ¬ insideCRLF [97, 13, 10] 3 := by decide
